@@ -112,12 +112,12 @@ def generate(seed, tier, batch):
             # feed-forward: classical dependency, possibly without any shared register mode
             src = r.choice([m for m in measured])
             tg = r.choice(alive)
-            if tg == src or src not in alive:
-                continue
+            if src not in alive or (tg == src and r.random() < 0.7):
+                continue  # mostly onto another mode; sometimes the measured mode itself gets a gate with its own value
             e = {"mul": [{"meas": src}, round(r.uniform(-1, 1), 3) or 0.5]}  # never 0: q.par * 0 is simplified to the number 0 (no dependency)
             if r.random() < 0.3 and len(measured) > 1:
                 src2 = r.choice(measured)
-                if src2 in alive and src2 != tg:
+                if src2 in alive:
                     e = {"add": [e, {"meas": src2}]}
             ops.append({"op": r.choice(["Dgate", "Rgate", "Xgate", "Zgate"]), "p": [e], "m": [tg]})
         elif x < 0.95 and nxt < 10:
